@@ -170,11 +170,21 @@ type LangID uint16
 // Derived languages not exactly supported are mapped to their primary part : for instance,
 // 'fr-be' is mapped to 'fr'
 func NewLangID(l Language) (LangID, bool) {
-	if i, ok := binarySearchLang(l, languagesInfos[:knownLangsCount]); ok {
-		return LangID(i), true
+	i1, ok1 := binarySearchLang(l, languagesInfos[:knownLangsCount])
+	if ok1 && languagesInfos[i1].lang == l { // exact match
+		return LangID(i1), true
 	}
-	if i, ok := binarySearchLang(l, languagesInfos[knownLangsCount:]); ok {
-		return knownLangsCount + LangID(i), true
+	// an exact match in the second part of the table (such as 'ml-in')
+	// has priority over a primary match (such as 'ml') in the first one
+	i2, ok2 := binarySearchLang(l, languagesInfos[knownLangsCount:])
+	if ok2 && languagesInfos[int(knownLangsCount)+i2].lang == l {
+		return knownLangsCount + LangID(i2), true
+	}
+	if ok1 {
+		return LangID(i1), true
+	}
+	if ok2 {
+		return knownLangsCount + LangID(i2), true
 	}
 	return 0, false
 }
